@@ -118,19 +118,23 @@ def bag_key_rule(repo, rep, r8):
     numeric keys must also be applied by the reader to every numeric value that becomes a key - otherwise a reloaded Bag
     holds float NaN keys: it re-serialises differently, is unequal to the original and + no longer merges the NaN cell."""
     bag = repo.cls("Bag")
-    upd = repo.lookup(bag, "_update")
     rd = repo.own_method(bag, "fromJsonFragment")
-    if upd is None or rd is None:
-        raise AnalysisError("Bag._update / Bag.fromJsonFragment not found")
-    # the normaliser(s) of the filling path: functions applied to q before it is used as a key
+    if rd is None:
+        raise AnalysisError("Bag.fromJsonFragment not found")
+    # the normaliser(s) of the filling path: NaN-normalising converters applied in the definitions of the key (def-use, see C02/R2.5)
+    from .c02 import key_definitions, nan_normalisers
+    allnorm = nan_normalisers(repo)
     norms = set()
-    for n in walk_local_stmt(upd.node):
-        if isinstance(n, ast.Assign) and len(n.targets) == 1 and isinstance(n.targets[0], ast.Name) and n.targets[0].id == upd.params[1]:
-            for c in ast.walk(n.value):
-                if isinstance(c, ast.Call) and isinstance(c.func, ast.Name) and c.func.id not in ("tuple", "list", "len", "map"):
-                    norms.add(c.func.id)
+    for cand in ("fill", "_update"):
+        f0 = repo.lookup(bag, cand)
+        if f0 is None:
+            continue
+        for n, v in key_definitions(f0)[1]:
+            for x in ast.walk(v):
+                if isinstance(x, ast.Name) and x.id in allnorm:
+                    norms.add(x.id)
     if not norms:
-        raise AnalysisError("Bag._update: no key normaliser found (floatOrNan expected)")
+        raise AnalysisError("Bag fill path: no key normaliser found (floatOrNan expected)")
     # key variable(s) of the reader: the index of stores into the dict that becomes `values`
     keyvars = set()
     for n in walk_local_stmt(rd.node):
